@@ -69,7 +69,7 @@ Section LayerEnvFS.
       ((if exists_ p s then remove_dir_all p else ret tt) ;;;
        (if delta_is_empty d then ret tt
         else create_dir_all (S (length p)) p ;;;
-             iterM (fun f => write_file (p ++ [fst f]) (snd f)) (delta_files d))) s.
+             iterM (fun f => write_file (p ++ [fst f]) (Raw (snd f))) (delta_files d))) s.
 
   (* LayerEnv::write_to_layer_dir; process deltas in map order (HashMap order is unobservable:
      each process has its own directory) *)
@@ -93,7 +93,7 @@ Section LayerEnvFS.
                  else
                    mc <- read_file (p ++ [nm]) ;;
                    let '(stem, ob) := entry_behaviour nm in
-                   ret (match ob with Some b => dinsert b stem (snd mc) d | None => d end))
+                   ret (match ob with Some b => dinsert b stem (content_bytes (snd mc)) d | None => d end))
               (snd pl) (ret delta_empty).
 
   Definition delta_for_field (e : layer_env) (f : field) : delta :=
